@@ -114,32 +114,47 @@ def main():
         done = run_model(c, model, cases, hp)
         c.evaluations += len(done)
         c.traces_validated += len(done)
-        diffs, bad = [], []
-        jl, jx = [], []
+        njudged = [0]
+
+        def judge(cases_done):
+            """-> list of (case, why) for which the property fails on the real server's output"""
+            res, jl, jx = [], [], []
+            for x in cases_done:
+                if "multipart" in x.mflags:
+                    continue
+                if x.d.get("exc", "-") != "-":
+                    res.append((x, "exception left service::run(): " + bytes.fromhex(x.d["exc"]).decode("latin1")))
+                    continue
+                if x.d.get("probe") not in ("ok", "none") or "T" in x.d.get("flags", ""):
+                    res.append((x, "service died / probe failed / connection left hanging"))
+                    continue
+                if x.nreq is not None and f" ready={x.nreq} " not in x.impl + " ":
+                    res.append((x, f"keep-alive connection: {x.nreq} well-formed requests were sent, the applications ran {x.impl.split('ready=')[1].split()[0]} times"))
+                if x.absreq is not None:
+                    l = view_judge_line(x)
+                    if l is None:
+                        res.append((x, "well-formed request was not delivered to the application"))
+                    else:
+                        jl.append(l); jx.append(x)
+            rc, jout, jerr = c.run_lines(model, jl, timeout=3000) if jl else (0, [], "")
+            for x, o in zip(jx, jout):
+                if o != "1":
+                    res.append((x, "application did not observe the request the peer encoded (Spec.viewOk false)"))
+            if len(jout) != len(jl):
+                c.broke("judge", f"model driver answered {len(jout)} of {len(jl)} judge lines: {jerr[-800:]}")
+            njudged[0] += len(jl)
+            return res
+        bad = judge(done)
+        badset = set(id(x) for x, _ in bad)
+        diffs = []
         for x in done:
-            if "multipart" in x.mflags:
-                continue
-            if x.d.get("exc", "-") != "-" or x.d.get("probe") not in ("ok", "none") or "T" in x.d.get("flags", ""):
-                bad.append((x, "service died / probe failed / connection left hanging"))
+            if "multipart" in x.mflags or id(x) in badset:
                 continue
             if x.impl != x.model:
                 diffs.append(x)
             if len(x.reads) >= 2 and " ready=0" not in x.impl:
                 c.nontrivial.add((x.api, x.data(), tuple(x.reads)))
-            if x.nreq is not None and f" ready={x.nreq} " not in x.impl + " ":
-                bad.append((x, f"keep-alive connection: {x.nreq} well-formed requests were sent, the applications ran {x.impl.split('ready=')[1].split()[0]} times"))
-            if x.absreq is not None:
-                l = view_judge_line(x)
-                if l is None:
-                    bad.append((x, "well-formed request was not delivered to the application"))
-                else:
-                    jl.append(l); jx.append(x)
-        rc, jout, jerr = c.run_lines(model, jl, timeout=3000) if jl else (0, [], "")
-        for x, o in zip(jx, jout):
-            if o != "1":
-                bad.append((x, "application did not observe the request the peer encoded (Spec.viewOk false)"))
-        if len(jout) != len(jl):
-            c.broke("judge", f"model driver answered {len(jout)} of {len(jl)} judge lines: {jerr[-800:]}")
+        jl = [None] * njudged[0]
         c.extra_cov["judged_requests"] = len(jl)
         dist = {}
         for x in done:
@@ -153,6 +168,8 @@ def main():
         c.samples = [{"case": x.line()[:300], "reads": x.d.get("reads"), "impl": x.impl[:300], "model": x.model[:300]} for x in pick]
         for x, err in crashes:
             bad.append((x, "sanitizer abort / crash of the real service: " + " ".join(l.strip() for l in err.splitlines() if "ERROR" in l or "runtime error" in l)[:300], err))
+        if not c.replay_path:
+            bad = confirm_soft(c, hbin, model, bad, judge)
         for item in pick_diverse(bad, 20):
             x, why = item[0], item[1]
             c.violation(why, dict(x.replay(), stderr=item[2]) if len(item) > 2 else x.replay())
